@@ -101,6 +101,10 @@ func (p *inputlookupProcessor) Process(inpIqr *iqr.IQR) (*iqr.IQR, error) {
 		return nil, fmt.Errorf("inputlookupProcessor.Process: Only .csv and .csv.gz formats are currently supported")
 	}
 
+	if filename != filepath.Base(filename) || filename == "." || filename == ".." {
+		return nil, fmt.Errorf("inputlookupProcessor.Process: invalid lookup file name %q", filename)
+	}
+
 	filePath := filepath.Join(config.GetLookupPath(), filename)
 
 	fd, err := os.Open(filePath)
